@@ -125,12 +125,27 @@ static void mode_f7(std::size_t n, std::size_t bs){
 	std::size_t d = 4;
 	auto in = points(n, d, -4, 4); auto lab = points(n, d, -3, 3);
 	LabeledData<RealVector,RealVector> data = createLabeledDataFromRange(in, lab, bs);
+	std::vector<double> w(n); for(auto& x : w) x = 1 + rnd(3);
+	WeightedLabeledData<RealVector,RealVector> wdata(data, createDataFromRange(w, bs));
 	LinearModel<> lin(d, d, true); DropoutLayer<RealVector> drop(Shape({d}), 0.5);   // default rng = random::globalRng
 	auto model = lin >> drop;
 	RealVector p(model.numberOfParameters()); for(auto& x : p) x = (int)rnd(5) - 2;
-	SquaredLoss<> loss; ErrorFunction<> e(data, &model, &loss); ErrorFunction<>::FirstOrderDerivative g;
-	random::globalRng.seed(12345); printf("f7.eval %a\n", e.eval(p));
-	random::globalRng.seed(12345); printf("f7.evalDerivative %a\n", e.evalDerivative(p, g));
+	model.setParameterVector(p);
+	SquaredLoss<> loss; ErrorFunction<>::FirstOrderDerivative g;
+	{ ErrorFunction<> e(data, &model, &loss);
+	  random::globalRng.seed(12345); printf("f7.ef.eval %a\n", e.eval(p));
+	  random::globalRng.seed(12345); printf("f7.ef.evalDerivative %a\n", e.evalDerivative(p, g)); }
+	{ ErrorFunction<> e(wdata, &model, &loss);
+	  random::globalRng.seed(12345); printf("f7.wef.eval %a\n", e.eval(p));
+	  random::globalRng.seed(12345); printf("f7.wef.evalDerivative %a\n", e.evalDerivative(p, g)); }
+	{ random::globalRng.seed(12345); Data<RealVector> t = transform(data.inputs(), model);
+	  double s = 0; std::size_t i = 0; for(auto const& x : t.elements()){ for(double y : x) s += (++i) * y; } printf("f7.transform %a\n", s); }
+	{ auto pos = points(n, d, 1, 6); UnlabeledData<RealVector> ud = createDataFromRange(pos, bs);
+	  LinearModel<> l1(d, 1, true); RealVector q(l1.numberOfParameters()); for(auto& x : q) x = 1 + rnd(3); l1.setParameterVector(q);
+	  DropoutLayer<RealVector> d1(Shape({1}), 0.5); auto m1 = l1 >> d1; RealVector pq = m1.parameterVector(), gg;
+	  NegativeLogLikelihood nll(ud, &m1);
+	  random::globalRng.seed(12345); printf("f7.nll.eval %a\n", nll.eval(pq));
+	  random::globalRng.seed(12345); printf("f7.nll.evalDerivative %a\n", nll.evalDerivative(pq, gg)); }
 }
 
 static void mode_share(std::size_t n, std::size_t bs, std::size_t reps){
